@@ -301,6 +301,35 @@ def validate_trace_parallel(module, cfg, trace_path, parts=8, timeout=2400, heap
     return out
 
 
+def validate_independent(module, cfg, trace_path, parts=12, timeout=2400, heap="3g"):
+    """For traces whose lines are judged independently of each other: deal the lines
+    round-robin to `parts` concurrent TLC processes; line numbers are mapped back."""
+    import concurrent.futures
+    lines = open(trace_path).readlines()
+    parts = max(1, min(parts, len(lines)))
+    files = []
+    for k in range(parts):
+        sub = lines[k::parts]
+        if sub:
+            fp = "%s.p%d" % (trace_path, k)
+            open(fp, "w").writelines(sub)
+            files.append((fp, k))
+    out = TraceVerdict()
+    with concurrent.futures.ThreadPoolExecutor(max_workers=parts) as ex:
+        futs = [ex.submit(validate_trace, module, cfg, fp, timeout, None, heap) for fp, _ in files]
+        for (fp, k), fu in zip(files, futs):
+            v = fu.result()
+            out.consumed += v.consumed
+            out.total += v.total
+            out.rejections += [[r[0], (r[1] - 1) * parts + k + 1, r[2]] for r in v.rejections]
+            if out.tlc is None:
+                out.tlc = v.tlc
+            else:
+                out.tlc.prints += v.tlc.prints
+            os.remove(fp)
+    return out
+
+
 def load_known_findings():
     p = os.path.join(ROOT, "known_findings.json")
     if not os.path.exists(p):
